@@ -10,6 +10,7 @@ package main
 import (
 	"fmt"
 	"os"
+	"strings"
 	"time"
 
 	"verif/harness/lib"
@@ -22,6 +23,24 @@ type engine struct {
 	rep *lib.Report
 	// unsubRelayShown counts how often the known finding pubsub.mesh:unsubscribed-relay was reported
 	unsubRelayShown int
+	// shown counts the reports per finding key of classes that repeat many times per run
+	shown map[string]int
+}
+
+// compareCapped is rep.Compare, except that a finding of an alias-sender key is reported at most 3
+// times per key and run (the report keeps 200 disagreements; one defect must not crowd out others).
+func (e *engine) compareCapped(op, model, impl, branch, key, mon string) {
+	if strings.Contains(key, ":alias-sender") && (model != impl || mon != "") {
+		if e.shown == nil {
+			e.shown = map[string]int{}
+		}
+		e.shown[key]++
+		if e.shown[key] > 3 {
+			e.rep.Case(op, model, impl, branch, true)
+			return
+		}
+	}
+	e.rep.Compare(op, model, impl, branch, key, mon)
 }
 
 func main() {
